@@ -38,7 +38,10 @@ macro_rules! fixed_cmp_fixed {
                     Widest::Unsigned(bits) => bits as <Self as Fixed>::Bits,
                     Widest::Negative(bits) => bits as <Self as Fixed>::Bits,
                 };
-                conv.dir == Ordering::Equal && !conv.overflow && rhs_bits == self.to_bits()
+                conv.dir == Ordering::Equal
+                    && !conv.overflow
+                    && rhs_bits.is_negative() == rhs.to_bits().is_negative()
+                    && rhs_bits == self.to_bits()
             }
         }
 
@@ -66,6 +69,10 @@ macro_rules! fixed_cmp_fixed {
                     Widest::Unsigned(bits) => bits as <Self as Fixed>::Bits,
                     Widest::Negative(bits) => bits as <Self as Fixed>::Bits,
                 };
+                if rhs_bits.is_negative() != rhs.to_bits().is_negative() {
+                    // a non-negative rhs that needs the sign bit of Self does not fit
+                    return Some(Ordering::Less);
+                }
                 Some(self.to_bits().cmp(&rhs_bits).then(conv.dir))
             }
 
@@ -88,6 +95,10 @@ macro_rules! fixed_cmp_fixed {
                     Widest::Unsigned(bits) => bits as <Self as Fixed>::Bits,
                     Widest::Negative(bits) => bits as <Self as Fixed>::Bits,
                 };
+                if rhs_bits.is_negative() != rhs.to_bits().is_negative() {
+                    // a non-negative rhs that needs the sign bit of Self does not fit
+                    return true;
+                }
                 self.to_bits() < rhs_bits
                     || (self.to_bits() == rhs_bits && conv.dir == Ordering::Less)
             }
@@ -187,15 +198,19 @@ macro_rules! fixed_cmp_float {
         impl<Frac: $LeEqU> PartialEq<$Float> for $Fix<Frac> {
             #[inline]
             fn eq(&self, rhs: &$Float) -> bool {
-                let conv = match rhs.to_float_kind(Self::FRAC_NBITS, Self::INT_NBITS) {
-                    FloatKind::Finite { conv, .. } => conv,
+                let (rhs_is_neg, conv) = match rhs.to_float_kind(Self::FRAC_NBITS, Self::INT_NBITS)
+                {
+                    FloatKind::Finite { neg, conv } => (neg, conv),
                     _ => return false,
                 };
                 let rhs_bits = match conv.bits {
                     Widest::Unsigned(bits) => bits as <Self as Fixed>::Bits,
                     Widest::Negative(bits) => bits as <Self as Fixed>::Bits,
                 };
-                conv.dir == Ordering::Equal && !conv.overflow && rhs_bits == self.to_bits()
+                conv.dir == Ordering::Equal
+                    && !conv.overflow
+                    && rhs_bits.is_negative() == rhs_is_neg
+                    && rhs_bits == self.to_bits()
             }
         }
 
@@ -237,6 +252,10 @@ macro_rules! fixed_cmp_float {
                     Widest::Unsigned(bits) => bits as <Self as Fixed>::Bits,
                     Widest::Negative(bits) => bits as <Self as Fixed>::Bits,
                 };
+                if !rhs_is_neg && rhs_bits.is_negative() {
+                    // a non-negative rhs that needs the sign bit of Self does not fit
+                    return Some(Ordering::Less);
+                }
                 Some(self.to_bits().cmp(&rhs_bits).then(conv.dir))
             }
 
@@ -261,6 +280,10 @@ macro_rules! fixed_cmp_float {
                     Widest::Unsigned(bits) => bits as <Self as Fixed>::Bits,
                     Widest::Negative(bits) => bits as <Self as Fixed>::Bits,
                 };
+                if !rhs_is_neg && rhs_bits.is_negative() {
+                    // a non-negative rhs that needs the sign bit of Self does not fit
+                    return true;
+                }
                 let lhs_bits = self.to_bits();
                 lhs_bits < rhs_bits || (lhs_bits == rhs_bits && conv.dir == Ordering::Less)
             }
@@ -308,6 +331,10 @@ macro_rules! fixed_cmp_float {
                     Widest::Unsigned(bits) => bits as <$Fix<Frac> as Fixed>::Bits,
                     Widest::Negative(bits) => bits as <$Fix<Frac> as Fixed>::Bits,
                 };
+                if !lhs_is_neg && lhs_bits.is_negative() {
+                    // a non-negative lhs that needs the sign bit of the fixed type does not fit
+                    return false;
+                }
                 let rhs_bits = rhs.to_bits();
                 lhs_bits < rhs_bits || (lhs_bits == rhs_bits && conv.dir == Ordering::Greater)
             }
